@@ -387,11 +387,11 @@ Theorem C20_value_ops_preserve_inv :
 Proof. exact value_ops_preserve_inv. Qed.
 Print Assumptions C20_value_ops_preserve_inv.
 
-Theorem C20_value_ops_reachable_partial :
+Theorem C20_value_ops_reachable :
   forall ops, Forall value_op ops ->
     all_inv (fold_left (fun st o => fst (xstep st o)) ops init_state).
 Proof. exact value_ops_reachable. Qed.
-Print Assumptions C20_value_ops_reachable_partial.
+Print Assumptions C20_value_ops_reachable.
 
 Theorem C20_swap_involutive :
   forall st a b, a < length st -> b < length st ->
@@ -428,3 +428,117 @@ Example C20_example_dense_and_substitute :
   /\ fst (remove_interactions (fun u v _ => (u =? 1) || (v =? 1)) ex5)
      = fst (remove_interaction 1 3 (fst (remove_interaction 1 1 (fst (remove_interaction 0 1 ex5))))).
 Proof. vm_compute. repeat split; reflexivity. Qed.
+
+(* ------------------------------------------------------------------------
+   Every operation of Model/AdjMore.v keeps the invariant (Proofs/AdjMoreInv.v)
+   ------------------------------------------------------------------------ *)
+From Dimod Require Import Proofs.AdjMoreInv.
+Local Open Scope nat_scope.
+
+(* bulk removal on sorted distinct in-range indices IS iterated remove_variable, largest first *)
+Theorem C20_remove_variables_is_iterated :
+  forall vs m, Inv m -> StronglySorted lt vs -> Forall (fun v => v < nvars m) vs ->
+    remove_variables_sorted vs m = fold_right remove_variable m vs
+    /\ Inv (remove_variables_sorted vs m)
+    /\ nvars (remove_variables_sorted vs m) = nvars m - length vs.
+Proof. exact remove_variables_sorted_iterated. Qed.
+Print Assumptions C20_remove_variables_is_iterated.
+
+(* remove_variables as called: distinct in-range indices in any order (sorted first) *)
+Theorem C20_inv_remove_variables :
+  forall vars m, Inv m -> NoDup vars -> Forall (fun v => v < nvars m) vars ->
+    Inv (remove_variables vars m) /\ nvars (remove_variables vars m) = nvars m - length vars.
+Proof. exact Inv_remove_variables. Qed.
+Print Assumptions C20_inv_remove_variables.
+
+Theorem C20_inv_remove_interactions :
+  forall f m, sym_filter f -> Inv m -> Inv (fst (remove_interactions f m)).
+Proof. exact Inv_remove_interactions. Qed.
+Print Assumptions C20_inv_remove_interactions.
+
+(* on a linear model the add_quadratic_back branch meets its ordering promise at every step:
+   both branches perform the same add_quadratic calls *)
+Theorem C20_dense_branches_agree :
+  forall n d m, Inv m -> n <= nvars m ->
+    add_quadratic_from_dense n d m = add_quadratic_coo (dense_terms n d) m.
+Proof. exact add_quadratic_from_dense_is_coo. Qed.
+Print Assumptions C20_dense_branches_agree.
+
+Theorem C20_inv_add_quadratic_from_dense :
+  forall n d m, Inv m -> n <= nvars m ->
+    Inv (add_quadratic_from_dense n d m) /\ nvars (add_quadratic_from_dense n d m) = nvars m
+    /\ vts (add_quadratic_from_dense n d m) = vts m.
+Proof. exact Inv_add_quadratic_from_dense. Qed.
+Print Assumptions C20_inv_add_quadratic_from_dense.
+
+Theorem C20_inv_coo_qm :
+  forall l m, Inv m -> coo_in_range (nvars m) l -> Inv (add_quadratic_coo l m).
+Proof. exact Inv_add_quadratic_coo_qm. Qed.
+Print Assumptions C20_inv_coo_qm.
+
+(* the BQM overload grows itself: no precondition on the indices at all *)
+Theorem C20_inv_coo_bqm : forall t l m, Inv m -> Inv (add_quadratic_coo_bqm t l m).
+Proof. exact Inv_add_quadratic_coo_bqm. Qed.
+Print Assumptions C20_inv_coo_bqm.
+
+Theorem C20_inv_substitute_variables : forall k c m, Inv m -> Inv (substitute_variables k c m).
+Proof. exact Inv_substitute_variables. Qed.
+Print Assumptions C20_inv_substitute_variables.
+
+Theorem C20_inv_bqm_change_vartype :
+  forall cur target m, Inv m -> all_binspin m -> Inv (fst (fst (bqm_change_vartype cur target m))).
+Proof. exact Inv_bqm_change_vartype. Qed.
+Print Assumptions C20_inv_bqm_change_vartype.
+
+Theorem C20_inv_qm_change_vartype :
+  forall t v m b, Inv m -> v < nvars m -> Inv (fst (fst (qm_change_vartype t v m b))).
+Proof. exact Inv_qm_change_vartype. Qed.
+Print Assumptions C20_inv_qm_change_vartype.
+
+(* every operation the correspondence check executes, within the precondition `xpre`
+   evaluated on the state it meets, keeps the invariant of all four objects *)
+Theorem C20_xstep_preserves_inv :
+  forall st o, all_inv st -> xpre st o -> all_inv (fst (xstep st o)).
+Proof. exact xstep_preserves_inv. Qed.
+Print Assumptions C20_xstep_preserves_inv.
+
+Theorem C20_xstep_reachable :
+  forall ops, xrun_pre init_state ops ->
+    all_inv (fold_left (fun st o => fst (xstep st o)) ops init_state).
+Proof. exact xstep_reachable_init. Qed.
+Print Assumptions C20_xstep_reachable.
+
+(* the hypotheses are satisfiable on a non-trivial history using every kind of operation *)
+Example C20_example_full_history :
+  let ops := [XB 0 (CAddVar INTEGER); XAddVars 0 BINARY 3 None; XB 0 (CAddQuad 0 0 (qc 3 2));
+              XDense 0 3 [qc 1 1; qc 2 1; 0%Qc; qc 1 2; 0%Qc; qc 3 1; 0%Qc; 0%Qc; qc 4 1];
+              XCoo 0 [(3, 1, qc 1 1); (0, 2, qc (-1) 1)]; XRemInts 0 1 1 0%Qc; XSubstAll 0 (qc 2 1) (qc (-1) 1);
+              XChVt 0 SPIN 1; XRemVars 0 [2; 0]; XCopy 1 0; XSwap 0 1;
+              XCoo 2 [(4, 1, qc 1 1)]; XChVt 2 SPIN 0; XQmOfBqm 1 2; XDenseCtor 3 2 SPIN [0%Qc; qc 1 1; qc 1 1; 0%Qc]] in
+  nvars (sm (get (fold_left (fun st o => fst (xstep st o)) ops init_state) 1)) = 5
+  /\ forallb (fun x => inv_b (sm x)) (fold_left (fun st o => fst (xstep st o)) ops init_state) = true.
+Proof. vm_compute. split; reflexivity. Qed.
+
+(* ---------- counts for the extended operations ---------- *)
+Theorem C20_is_linear_iff_degrees_zero : forall m, is_linear m = true <-> forall v, degree m v = 0.
+Proof. exact is_linear_degree. Qed.
+Print Assumptions C20_is_linear_iff_degrees_zero.
+
+Theorem C20_is_linear_no_interactions : forall m, is_linear m = true -> num_interactions m = 0.
+Proof. exact is_linear_num_interactions. Qed.
+Print Assumptions C20_is_linear_no_interactions.
+
+(* substitute_variables (hence BQM change_vartype) leaves every count unchanged *)
+Theorem C20_counts_substitute_variables :
+  forall k c m, length (adj m) = nvars m ->
+    (forall v, degree (substitute_variables k c m) v = degree m v)
+    /\ is_linear (substitute_variables k c m) = is_linear m
+    /\ num_interactions (substitute_variables k c m) = num_interactions m.
+Proof. exact counts_substitute_variables. Qed.
+Print Assumptions C20_counts_substitute_variables.
+
+Theorem C20_counts_remove_interactions :
+  forall f m, (forall v, degree (fst (remove_interactions f m)) v <= degree m v)
+    /\ (is_linear m = true -> is_linear (fst (remove_interactions f m)) = true).
+Proof. exact counts_remove_interactions. Qed.
+Print Assumptions C20_counts_remove_interactions.
